@@ -54,6 +54,12 @@ class Flow:
             fname = dotted(p.func)
             if node in p.args or any(k.value is node for k in p.keywords):
                 if fname in ORDER_FREE_CALLS:
+                    # sorted / min / max with a key= function are stable: ties keep the iteration order of
+                    # their argument, so the order of a set does reach the result
+                    if fname in ("sorted", "min", "max") and any(k.arg == "key" for k in p.keywords):
+                        kfn = next(k.value for k in p.keywords if k.arg == "key")
+                        return (f"{fname}(..., key={ast.unparse(kfn)[:30]}) breaks ties by iteration order, "
+                                "which for a set depends on the hash seed")
                     return None
                 if fname in ("list", "tuple", "iter", "reversed", "copy.copy", "copy.deepcopy"):
                     return self.consumed_ok(m, p, depth + 1)
@@ -315,6 +321,13 @@ def run(ctx: Ctx):
                 ctx.fail("no-ambient-sources", f"{rel}:os.environ", "os.environ is read by the generator", rel, node.lineno)
     ctx.floor(".id_ reads", nid, 6)
 
+    # ---------------------------------------------------------------- (3b) no state that survives a run
+    from ..genlint import cross_run_state
+    nstate, hits = cross_run_state(idx)
+    for rel, construct, msg, ln in hits:
+        ctx.fail("no-cross-run-state", construct, msg, rel, ln)
+    ctx.ok("no-cross-run-state", {"module_or_class_level_containers_examined": nstate})
+
     # ---------------------------------------------------------------- (4) directory enumeration
     ndir = 0
     for rel, m in sorted(idx.modules.items()):
@@ -470,6 +483,8 @@ def produced_keys(idx: Index, m: Module, fn, iter_expr):
             for st in ast.walk(f2):
                 if isinstance(st, ast.Assign) and isinstance(st.targets[0], ast.Subscript):
                     key = st.targets[0].slice
+                    if isinstance(key, ast.JoinedStr):
+                        sufs.add(str(key.values[-1].value) if isinstance(key.values[-1], ast.Constant) else None)
                     if isinstance(key, ast.Name):
                         for s3 in ast.walk(f2):
                             if isinstance(s3, ast.Assign) and any(dotted(t) == key.id for t in s3.targets):
